@@ -284,3 +284,20 @@ package ocidir
 //@     invariant no-exact-name-at-all: forall(k, 0, len(index.Manifests), !($has(index.Manifests[k].Annotations, aOCIRefName) && index.Manifests[k].Annotations[aOCIRefName] == r.Tag))
 //@   ensures exact-name-wins: err == nil && old(r).Digest == "" && old(r).Tag != "" ==> ($has(ret.Annotations, aOCIRefName) && ret.Annotations[aOCIRefName] == old(r).Tag) || forall(k, 0, len(index.Manifests), !($has(index.Manifests[k].Annotations, aOCIRefName) && index.Manifests[k].Annotations[aOCIRefName] == old(r).Tag))
 //@   ensures by-digest-returns-that-digest: err == nil && old(r).Digest != "" ==> string(ret.Digest) == old(r).Digest
+
+// ---- C06: the tag listing shows tags ----
+// TagList reduces a full image name found in org.opencontainers.image.ref.name to its tag. What it
+// lists must be what indexGet resolves: the part behind the LAST colon (a registry host may carry
+// a port), so a listed name never contains a colon, and the annotation it was taken from is either
+// that name or ends in ":" + name. $noColon / $tagOf: assumed facts about strings.LastIndex and
+// slicing (bounded-checked by /verif/bounded/pathlemmas).
+//@ ufun $hasColon(string) bool
+//@ ufun $endsInTag(string, string) bool
+//@ axiom no-colon-without-index: forall(s, string, $lastIndex(s, ":") < 0 ==> !$hasColon(s) && $endsInTag(s, s))
+//@ axiom no-colon-behind-the-last-one: forall(s, string, $lastIndex(s, ":") >= 0 ==> !$hasColon(s[$lastIndex(s, ":") + 1:]) && $endsInTag(s, s[$lastIndex(s, ":") + 1:]))
+//@ callsite builtin.append(list, add)
+//@   prop C06
+//@   name append/TagList
+//@   in ~/scheme/ocidir
+//@   infunc OCIDir\)\.TagList$
+//@   requires a-listed-name-is-the-tag-behind-the-last-colon: len(add) == 1 && !$hasColon(add[0]) && $endsInTag(caller.desc.Annotations[aOCIRefName], add[0])
